@@ -63,7 +63,7 @@ PROPS = {
             'unverified': ['table border switches inside closures of render_table_row']},
     'C16': {'text': 'Proof of prefix measurement by display width under a decorator contract allowing arbitrary strings; prefixes in front of every line; inline affixes reach the block verbatim outside the element\'s own filter; TrivialDecorator returns only empty strings.',
             'unverified': ['decorator strings are spec functions of the decorator (A6: deterministic decorators)']},
-    'C18': {'text': 'Proof for the mechanism: styles_from_properties emits Display(None) exactly for display:none and the zero-height + hidden-overflow idiom, and a declaration of its own for every other display value (so that it can win in the cascade: D23); document CSS switch plumbing.',
+    'C18': {'text': 'Proof for the mechanism: styles_from_properties emits Display(None) exactly for display:none and the zero-height + hidden-overflow idiom, and a declaration of its own for every other display value (so that it can win in the cascade: D23); which display declaration wins: the cascade clauses of WithSpec::maybe_update, Specificity ordering and computed_style (shared with C19); document CSS switch plumbing.',
             'unverified': ['"renders as if deleted" relation over documents: process_dom_node early return (bounded stand-in only)']},
     'C19': {'text': 'Proof: WithSpec::maybe_update replaces the stored value exactly when the cascade key (importance/origin rank, specificity) of the new declaration is >= the stored one, for all keys; Specificity order is lexicographic, counting saturating and recursive; computed_style offers every declaration of every matching rule of the three origins in order, then the style / color / bgcolor attributes as author declarations of inline specificity with their own importance.',
             'unverified': ['rule storage (which rules reach the three rule sets); nearest-ancestor colour nesting relies on push/pop pairing in closures']},
